@@ -183,10 +183,16 @@ theorem lineCommentText_cmt {c : Str} (h : docLineOk c = true) : lineCommentText
     rw [h3, List.reverse_reverse]
 
 /-- a `// doc` line in a struct, message or union body that is not a tag comment -/
+theorem tagsOf_cons (c : Str) (cs : List Str) : tagsOf (c :: cs) = tagsOf [c] ++ tagsOf cs := by
+  simp only [tagsOf, List.filterMap_cons, List.filterMap_nil]
+  cases (commentTag c).getD none <;> simp
+
 theorem noteLineComment_ok (st : BodySt) {c : Str} (h : bodyDocOk c) (t : TR) :
-    noteLineComment st (tCmt c) t = .ok { st with comments := st.comments ++ [c] } t := by
-  simp only [noteLineComment, lineCommentText_cmt h.1, parseCommentTag, h.2, bind_pure]
-  rfl
+    noteLineComment st (tCmt c) t =
+      .ok { st with comments := st.comments ++ [c], tags := st.tags ++ tagsOf [c] } t := by
+  obtain ⟨r, hr⟩ := Option.isSome_iff_exists.1 h.2
+  simp only [noteLineComment, lineCommentText_cmt h.1, parseCommentTag, hr, bind_pure]
+  cases r <;> simp [tagsOf, hr, pure_apply]
 
 /-- skipEolComments on an end-of-line comment: it is swallowed -/
 theorem skipEol_cmt (f : Nat) (c : Str) {l : List Token} {t : TR} (h : Src (tCmt c :: l) t) :
@@ -272,19 +278,23 @@ theorem field_iter (fuel f : Nat) (acc : List Field) (st : BodySt) (ind : List B
 theorem bodySt_comments_nil (st : BodySt) : ({ st with comments := st.comments ++ [] } : BodySt) = st := by
   cases st; simp
 
+theorem bodySt_doc_nil (st : BodySt) :
+    ({ st with comments := st.comments ++ [], tags := st.tags ++ tagsOf [] } : BodySt) = st := by
+  cases st; simp [tagsOf]
+
 /-- `// doc` lines in a struct body: one iteration each -/
 theorem struct_doc_iter (fuel : Nat) (ind : List Byte) : ∀ (cs : List Str) (f : Nat) (acc : List Field) (st : BodySt)
     (r : List Lexeme) (t : TR), (∀ c ∈ cs, bodyDocOk c) → Src (toks (docLex ind cs r)) t →
     (t.nextTok.kind == TK.closeCurly) = false →
     ∃ t', Src (toks r) t' ∧ (t'.nextTok.kind == TK.closeCurly) = false ∧
       readStruct.loop fuel (f + cs.length) acc st t =
-        readStruct.loop fuel f acc { st with comments := st.comments ++ cs } t'
-  | [], f, acc, st, r, t, _, h, hcur => ⟨t, h, hcur, by rw [bodySt_comments_nil]; rfl⟩
+        readStruct.loop fuel f acc { st with comments := st.comments ++ cs, tags := st.tags ++ tagsOf cs } t'
+  | [], f, acc, st, r, t, _, h, hcur => ⟨t, h, hcur, by rw [bodySt_doc_nil]; rfl⟩
   | c :: cs, f, acc, st, r, t, hc, h, hcur => by
     simp only [docLex] at h
     obtain ⟨t1, hn, htok, hl⟩ := Src.step (tok := tCmt c) h
     have hk1 : t1.nextTok.kind = .lineComment := by rw [htok]
-    obtain ⟨t', hsrc, hcur', he⟩ := struct_doc_iter fuel ind cs f acc { st with comments := st.comments ++ [c] } r t1
+    obtain ⟨t', hsrc, hcur', he⟩ := struct_doc_iter fuel ind cs f acc { st with comments := st.comments ++ [c], tags := st.tags ++ tagsOf [c] } r t1
       (fun x hx => hc x (List.mem_cons_of_mem _ hx)) hl.src (by rw [hk1]; rfl)
     refine ⟨t', hsrc, hcur', ?_⟩
     rw [show f + (c :: cs).length = (f + cs.length) + 1 by simp; omega, readStruct.loop]
@@ -292,7 +302,7 @@ theorem struct_doc_iter (fuel : Nat) (ind : List Byte) : ∀ (cs : List Str) (f 
     rw [bind_pNext _ hn]
     simp only [Bool.not_true, Bool.false_eq_true, if_false, bind_pTok, hk1, htok]
     rw [bind_ok (noteLineComment_ok st (hc c (List.mem_cons_self)) t1), he]
-    simp only [List.append_assoc, List.singleton_append]
+    simp only [List.append_assoc, List.singleton_append, tagsOf_cons c cs]
 
 theorem fieldsLen_ge : ∀ (fs : List CField), 2 ≤ fieldsLen fs
   | [] => by simp [fieldsLen]
@@ -344,7 +354,8 @@ theorem fieldsLoop_ok (fuel : Nat) (ind : List Byte) : ∀ (fs : List CField) (f
     obtain ⟨f, rfl⟩ : ∃ k, f = k + g.doc.length := ⟨f - g.doc.length, by simp only [fieldsLen, fieldLen] at hf; omega⟩
     obtain ⟨t0, hsrc0, hcur0, he0⟩ := struct_doc_iter fuel ind g.doc f acc {} _ t hg.1 h hcur
     rw [he0]
-    have hst0 : ({ ({} : BodySt) with comments := ({} : BodySt).comments ++ g.doc } : BodySt) = { comments := g.doc } := by
+    have hst0 : ({ ({} : BodySt) with comments := ({} : BodySt).comments ++ g.doc,
+        tags := ({} : BodySt).tags ++ tagsOf g.doc } : BodySt) = { comments := g.doc, tags := tagsOf g.doc } := by
       simp
     rw [hst0]
     cases hd : g.dep with
@@ -353,7 +364,7 @@ theorem fieldsLoop_ok (fuel : Nat) (ind : List Byte) : ∀ (fs : List CField) (f
       simp only [depLex] at hsrc0
       obtain ⟨f, rfl⟩ : ∃ k, f = k + trailIter g.trail :=
         ⟨f - trailIter g.trail, by simp only [fieldsLen, fieldLen] at hf; omega⟩
-      obtain ⟨t1, hl1, hk1, he1⟩ := field_iter fuel f acc { comments := g.doc } ind g.ty hg.2.2.2.1 g.name g.trail hty h1fu
+      obtain ⟨t1, hl1, hk1, he1⟩ := field_iter fuel f acc { comments := g.doc, tags := tagsOf g.doc } ind g.ty hg.2.2.2.1 g.name g.trail hty h1fu
         _ t0 hsrc0 hcur0
       obtain ⟨t', h2, hl2⟩ := fieldsLoop_ok fuel ind fs f (acc ++ [fieldOfC g]) r t1
         (fun x hx => hok x (List.mem_cons_of_mem _ hx)) (by simp only [fieldsLen, fieldLen] at hf; omega)
@@ -362,7 +373,7 @@ theorem fieldsLoop_ok (fuel : Nat) (ind : List Byte) : ∀ (fs : List CField) (f
       rw [he1]
       simp only [List.map_cons, List.append_assoc, List.singleton_append] at h2 ⊢
       have hfd : fieldOfC g =
-          { ft := ftOf g.ty, name := g.name, comment := joinLines g.doc, tags := [], depMsg := [], deprecated := false } := by
+          { ft := ftOf g.ty, name := g.name, comment := joinLines g.doc, tags := tagsOf g.doc, depMsg := [], deprecated := false } := by
         simp [fieldOfC, docOf, hd, depMsgOf]
       rw [← hfd]
       exact h2
@@ -374,7 +385,7 @@ theorem fieldsLoop_ok (fuel : Nat) (ind : List Byte) : ∀ (fs : List CField) (f
       obtain ⟨ta, hna, htoka, hla⟩ := Src.step (tok := tLB) hsrc0
       obtain ⟨t1, hd1, hl1, htok1⟩ := readDeprecated_ok (hg.2.2.1 m hd) hla.src
       have hcur1 : (t1.nextTok.kind == TK.closeCurly) = false := by rw [htok1]; rfl
-      obtain ⟨t2, hl2, hk2, he2⟩ := field_iter fuel f acc { comments := g.doc, isDep := true, depMsg := m } ind g.ty
+      obtain ⟨t2, hl2, hk2, he2⟩ := field_iter fuel f acc { comments := g.doc, tags := tagsOf g.doc, isDep := true, depMsg := m } ind g.ty
         hg.2.2.2.1 g.name g.trail hty h1fu _ t1 hl1.src hcur1
       obtain ⟨t', h3, hl3⟩ := fieldsLoop_ok fuel ind fs f (acc ++ [fieldOfC g]) r t2
         (fun x hx => hok x (List.mem_cons_of_mem _ hx)) (by simp only [fieldsLen, fieldLen] at hf; omega)
@@ -387,12 +398,12 @@ theorem fieldsLoop_ok (fuel : Nat) (ind : List Byte) : ∀ (fs : List CField) (f
       rw [bind_pNext _ hna]
       simp only [Bool.not_true, Bool.false_eq_true, if_false, bind_pTok, hk0]
       rw [bind_ok hd1]
-      have hst : ({ ({ comments := g.doc } : BodySt) with isDep := true, depMsg := m } : BodySt) =
-          { comments := g.doc, isDep := true, depMsg := m } := rfl
+      have hst : ({ ({ comments := g.doc, tags := tagsOf g.doc } : BodySt) with isDep := true, depMsg := m } : BodySt) =
+          { comments := g.doc, tags := tagsOf g.doc, isDep := true, depMsg := m } := rfl
       rw [hst, he2]
       simp only [List.map_cons, List.append_assoc, List.singleton_append] at h3 ⊢
       have hfd : fieldOfC g =
-          { ft := ftOf g.ty, name := g.name, comment := joinLines g.doc, tags := [], depMsg := m, deprecated := true } := by
+          { ft := ftOf g.ty, name := g.name, comment := joinLines g.doc, tags := tagsOf g.doc, depMsg := m, deprecated := true } := by
         simp [fieldOfC, docOf, hd, depMsgOf]
       rw [← hfd]
       exact h3
@@ -448,14 +459,14 @@ theorem msg_doc_iter (fuel : Nat) (ind : List Byte) : ∀ (cs : List Str) (f : N
     (t.nextTok.kind == TK.closeCurly) = false →
     ∃ t', Src (toks r) t' ∧ (t'.nextTok.kind == TK.closeCurly) = false ∧
       readMessage.loop fuel (f + cs.length) acc st t =
-        readMessage.loop fuel f acc { st with comments := st.comments ++ cs } t'
-  | [], f, acc, st, r, t, _, h, hcur => ⟨t, h, hcur, by rw [bodySt_comments_nil]; rfl⟩
+        readMessage.loop fuel f acc { st with comments := st.comments ++ cs, tags := st.tags ++ tagsOf cs } t'
+  | [], f, acc, st, r, t, _, h, hcur => ⟨t, h, hcur, by rw [bodySt_doc_nil]; rfl⟩
   | c :: cs, f, acc, st, r, t, hc, h, hcur => by
     simp only [docLex] at h
     obtain ⟨t1, h1, hl1, htok1⟩ := expectAnyOf_ok
       (ks := [.newline, .intLit, .openSquare, .blockComment, .lineComment, .closeCurly]) (tok := tCmt c) rfl h
     have hk1 : t1.nextTok.kind = .lineComment := by rw [htok1]
-    obtain ⟨t', hsrc, hcur', he⟩ := msg_doc_iter fuel ind cs f acc { st with comments := st.comments ++ [c] } r t1
+    obtain ⟨t', hsrc, hcur', he⟩ := msg_doc_iter fuel ind cs f acc { st with comments := st.comments ++ [c], tags := st.tags ++ tagsOf [c] } r t1
       (fun x hx => hc x (List.mem_cons_of_mem _ hx)) hl1.src (by rw [hk1]; rfl)
     refine ⟨t', hsrc, hcur', ?_⟩
     rw [show f + (c :: cs).length = (f + cs.length) + 1 by simp; omega, readMessage.loop]
@@ -463,7 +474,7 @@ theorem msg_doc_iter (fuel : Nat) (ind : List Byte) : ∀ (cs : List Str) (f : N
     rw [bind_ok h1, bind_pTok]
     simp only [hk1, htok1]
     rw [bind_ok (noteLineComment_ok st (hc c (List.mem_cons_self)) t1), he]
-    simp only [List.append_assoc, List.singleton_append]
+    simp only [List.append_assoc, List.singleton_append, tagsOf_cons c cs]
 
 theorem msgLoop_ok (fuel : Nat) (ind : List Byte) : ∀ (gs : List CMsgField) (f : Nat) (acc : List (Nat × Field))
     (r : List Lexeme) (t : TR), (∀ g ∈ gs, CMsgFieldOk g) → (∀ g ∈ gs, ∀ x ∈ acc, x.1 ≠ idxVal g.idx) →
@@ -517,7 +528,8 @@ theorem msgLoop_ok (fuel : Nat) (ind : List Byte) : ∀ (gs : List CMsgField) (f
       ⟨f - g.doc.length, by simp only [msgFieldsLen, msgFieldLen] at hf; omega⟩
     obtain ⟨t0, hsrc0, hcur0, he0⟩ := msg_doc_iter fuel ind g.doc f acc {} _ t hg.1 h hcur
     rw [he0]
-    have hst0 : ({ ({} : BodySt) with comments := ({} : BodySt).comments ++ g.doc } : BodySt) = { comments := g.doc } := by
+    have hst0 : ({ ({} : BodySt) with comments := ({} : BodySt).comments ++ g.doc,
+        tags := ({} : BodySt).tags ++ tagsOf g.doc } : BodySt) = { comments := g.doc, tags := tagsOf g.doc } := by
       simp
     rw [hst0]
     cases hd : g.dep with
@@ -525,7 +537,7 @@ theorem msgLoop_ok (fuel : Nat) (ind : List Byte) : ∀ (gs : List CMsgField) (f
       rw [hd] at hsrc0
       simp only [depLex] at hsrc0
       obtain ⟨f, rfl⟩ : ∃ k, f = k + 2 := ⟨f - 2, by simp only [msgFieldsLen, msgFieldLen] at hf; omega⟩
-      obtain ⟨t1, hl1, hk1, he1⟩ := msg_field_iter fuel f acc { comments := g.doc } ind g.idx n hn hn0 hany g.ty
+      obtain ⟨t1, hl1, hk1, he1⟩ := msg_field_iter fuel f acc { comments := g.doc, tags := tagsOf g.doc } ind g.idx n hn hn0 hany g.ty
         hg.2.2.2.2.1 g.name hty h1fu _ t0 hsrc0 hcur0
       obtain ⟨t', h2, hl2⟩ := msgLoop_ok fuel ind gs f (acc ++ [msgFieldOf g]) r t1
         (fun x hx => hok x (List.mem_cons_of_mem _ hx)) hfresh' hnd.2
@@ -535,7 +547,7 @@ theorem msgLoop_ok (fuel : Nat) (ind : List Byte) : ∀ (gs : List CMsgField) (f
       rw [he1]
       simp only [List.map_cons, List.append_assoc, List.singleton_append] at h2 ⊢
       have hfd : msgFieldOf g = (n,
-          { ft := ftOf g.ty, name := g.name, comment := joinLines g.doc, tags := [], depMsg := [], deprecated := false }) := by
+          { ft := ftOf g.ty, name := g.name, comment := joinLines g.doc, tags := tagsOf g.doc, depMsg := [], deprecated := false }) := by
         simp [msgFieldOf, docOf, hd, depMsgOf, hidx]
       rw [← hfd]
       exact h2
@@ -547,7 +559,7 @@ theorem msgLoop_ok (fuel : Nat) (ind : List Byte) : ∀ (gs : List CMsgField) (f
         (ks := [.newline, .intLit, .openSquare, .blockComment, .lineComment, .closeCurly]) (tok := tLB) (by decide) hsrc0
       obtain ⟨t1, hd1, hl1, htok1⟩ := readDeprecated_ok (hg.2.1 m hd) hl0.src
       have hcur1 : (t1.nextTok.kind == TK.closeCurly) = false := by rw [htok1]; rfl
-      obtain ⟨t2, hl2, hk2, he2⟩ := msg_field_iter fuel f acc { comments := g.doc, isDep := true, depMsg := m } ind g.idx n
+      obtain ⟨t2, hl2, hk2, he2⟩ := msg_field_iter fuel f acc { comments := g.doc, tags := tagsOf g.doc, isDep := true, depMsg := m } ind g.idx n
         hn hn0 hany g.ty hg.2.2.2.2.1 g.name hty h1fu _ t1 hl1.src hcur1
       obtain ⟨t', h3, hl3⟩ := msgLoop_ok fuel ind gs f (acc ++ [msgFieldOf g]) r t2
         (fun x hx => hok x (List.mem_cons_of_mem _ hx)) hfresh' hnd.2
@@ -560,12 +572,12 @@ theorem msgLoop_ok (fuel : Nat) (ind : List Byte) : ∀ (gs : List CMsgField) (f
       rw [bind_ok h0, bind_pTok]
       simp only [hk0]
       rw [bind_ok hd1]
-      have hst : ({ ({ comments := g.doc } : BodySt) with isDep := true, depMsg := m } : BodySt) =
-          { comments := g.doc, isDep := true, depMsg := m } := rfl
+      have hst : ({ ({ comments := g.doc, tags := tagsOf g.doc } : BodySt) with isDep := true, depMsg := m } : BodySt) =
+          { comments := g.doc, tags := tagsOf g.doc, isDep := true, depMsg := m } := rfl
       rw [hst, he2]
       simp only [List.map_cons, List.append_assoc, List.singleton_append] at h3 ⊢
       have hfd : msgFieldOf g = (n,
-          { ft := ftOf g.ty, name := g.name, comment := joinLines g.doc, tags := [], depMsg := m, deprecated := true }) := by
+          { ft := ftOf g.ty, name := g.name, comment := joinLines g.doc, tags := tagsOf g.doc, depMsg := m, deprecated := true }) := by
         simp [msgFieldOf, docOf, hd, depMsgOf, hidx]
       rw [← hfd]
       exact h3
@@ -1244,13 +1256,13 @@ theorem union_doc_iter (fuel : Nat) : ∀ (cs : List Str) (f : Nat) (acc : List 
     (t.nextTok.kind == TK.closeCurly) = false →
     ∃ t', Src (toks r) t' ∧ (t'.nextTok.kind == TK.closeCurly) = false ∧
       readUnion.loop fuel (f + cs.length) acc st t =
-        readUnion.loop fuel f acc { st with comments := st.comments ++ cs } t'
-  | [], f, acc, st, r, t, _, h, hcur => ⟨t, h, hcur, by rw [bodySt_comments_nil]; rfl⟩
+        readUnion.loop fuel f acc { st with comments := st.comments ++ cs, tags := st.tags ++ tagsOf cs } t'
+  | [], f, acc, st, r, t, _, h, hcur => ⟨t, h, hcur, by rw [bodySt_doc_nil]; rfl⟩
   | c :: cs, f, acc, st, r, t, hc, h, hcur => by
     simp only [docLex] at h
     obtain ⟨t1, hn, htok, hl⟩ := Src.step (tok := tCmt c) h
     have hk1 : t1.nextTok.kind = .lineComment := by rw [htok]
-    obtain ⟨t', hsrc, hcur', he⟩ := union_doc_iter fuel cs f acc { st with comments := st.comments ++ [c] } r t1
+    obtain ⟨t', hsrc, hcur', he⟩ := union_doc_iter fuel cs f acc { st with comments := st.comments ++ [c], tags := st.tags ++ tagsOf [c] } r t1
       (fun x hx => hc x (List.mem_cons_of_mem _ hx)) hl.src (by rw [hk1]; rfl)
     refine ⟨t', hsrc, hcur', ?_⟩
     rw [show f + (c :: cs).length = (f + cs.length) + 1 by simp; omega, readUnion.loop]
@@ -1258,7 +1270,7 @@ theorem union_doc_iter (fuel : Nat) : ∀ (cs : List Str) (f : Nat) (acc : List 
     rw [bind_pNext _ hn]
     simp only [Bool.not_true, Bool.false_eq_true, if_false, bind_pTok, hk1, htok]
     rw [bind_ok (noteLineComment_ok st (hc c (List.mem_cons_self)) t1), he]
-    simp only [List.append_assoc, List.singleton_append]
+    simp only [List.append_assoc, List.singleton_append, tagsOf_cons c cs]
 
 theorem membersLoop_ok (fuel : Nat) : ∀ (ms : List CUMember) (f : Nat) (acc : List (Nat × UnionField))
     (r : List Lexeme) (t : TR), (∀ m ∈ ms, CUMemberOk m) → (∀ m ∈ ms, ∀ x ∈ acc, x.1 ≠ idxVal m.idx) →
@@ -1310,7 +1322,8 @@ theorem membersLoop_ok (fuel : Nat) : ∀ (ms : List CUMember) (f : Nat) (acc : 
     obtain ⟨f, rfl⟩ : ∃ k, f = k + m.doc.length := ⟨f - m.doc.length, by simp only [membersLen] at hf; omega⟩
     obtain ⟨t0, hsrc0, hcur0, he0⟩ := union_doc_iter fuel m.doc f acc {} _ t hdocOk h hcur
     rw [he0]
-    have hst0 : ({ ({} : BodySt) with comments := ({} : BodySt).comments ++ m.doc } : BodySt) = { comments := m.doc } := by
+    have hst0 : ({ ({} : BodySt) with comments := ({} : BodySt).comments ++ m.doc,
+        tags := ({} : BodySt).tags ++ tagsOf m.doc } : BodySt) = { comments := m.doc, tags := tagsOf m.doc } := by
       simp
     rw [hst0]
     cases hd : m.dep with
@@ -1318,7 +1331,7 @@ theorem membersLoop_ok (fuel : Nat) : ∀ (ms : List CUMember) (f : Nat) (acc : 
       rw [hd] at hsrc0
       simp only [depLex] at hsrc0
       obtain ⟨f, rfl⟩ : ∃ k, f = k + 1 := ⟨f - 1, by simp only [membersLen] at hf; omega⟩
-      obtain ⟨t1, hl1, hk1, he1⟩ := member_iter fuel f acc { comments := m.doc } m hm
+      obtain ⟨t1, hl1, hk1, he1⟩ := member_iter fuel f acc { comments := m.doc, tags := tagsOf m.doc } m hm
         (by simp only [membersLen] at hfu; omega) hany _ t0 hsrc0 hcur0
       obtain ⟨t', h2, hl2⟩ := membersLoop_ok fuel ms f (acc ++ [memberOf m]) r t1
         (fun x hx => hok x (List.mem_cons_of_mem _ hx)) hfresh' hnd.2
@@ -1326,7 +1339,7 @@ theorem membersLoop_ok (fuel : Nat) : ∀ (ms : List CUMember) (f : Nat) (acc : 
       refine ⟨t', ?_, hl2⟩
       rw [he1]
       simp only [List.map_cons, List.append_assoc, List.singleton_append] at h2 ⊢
-      have hfd : memberOf m = (idxVal m.idx, memberUnder { comments := m.doc } m) := by
+      have hfd : memberOf m = (idxVal m.idx, memberUnder { comments := m.doc, tags := tagsOf m.doc } m) := by
         cases m <;> simp_all [memberOf, memberUnder, CUMember.dep, CUMember.doc, depMsgOf, docOf]
       rw [← hfd]
       exact h2
@@ -1338,7 +1351,7 @@ theorem membersLoop_ok (fuel : Nat) : ∀ (ms : List CUMember) (f : Nat) (acc : 
       obtain ⟨ta, hn0, htok0, hl0⟩ := Src.step (tok := tLB) hsrc0
       obtain ⟨t1, hd1, hl1, htok1⟩ := readDeprecated_ok (hdepOk d hd) hl0.src
       have hcur1 : (t1.nextTok.kind == TK.closeCurly) = false := by rw [htok1]; rfl
-      obtain ⟨t2, hl2, hk2, he2⟩ := member_iter fuel f acc { comments := m.doc, isDep := true, depMsg := d } m hm
+      obtain ⟨t2, hl2, hk2, he2⟩ := member_iter fuel f acc { comments := m.doc, tags := tagsOf m.doc, isDep := true, depMsg := d } m hm
         (by simp only [membersLen] at hfu; omega) hany _ t1 hl1.src hcur1
       obtain ⟨t', h3, hl3⟩ := membersLoop_ok fuel ms f (acc ++ [memberOf m]) r t2
         (fun x hx => hok x (List.mem_cons_of_mem _ hx)) hfresh' hnd.2
@@ -1350,11 +1363,11 @@ theorem membersLoop_ok (fuel : Nat) : ∀ (ms : List CUMember) (f : Nat) (acc : 
       rw [bind_pNext _ hn0]
       simp only [Bool.not_true, Bool.false_eq_true, if_false, bind_pTok, hk0]
       rw [bind_ok hd1]
-      have hst : ({ ({ comments := m.doc } : BodySt) with isDep := true, depMsg := d } : BodySt) =
-          { comments := m.doc, isDep := true, depMsg := d } := rfl
+      have hst : ({ ({ comments := m.doc, tags := tagsOf m.doc } : BodySt) with isDep := true, depMsg := d } : BodySt) =
+          { comments := m.doc, tags := tagsOf m.doc, isDep := true, depMsg := d } := rfl
       rw [hst, he2]
       simp only [List.map_cons, List.append_assoc, List.singleton_append] at h3 ⊢
-      have hfd : memberOf m = (idxVal m.idx, memberUnder { comments := m.doc, isDep := true, depMsg := d } m) := by
+      have hfd : memberOf m = (idxVal m.idx, memberUnder { comments := m.doc, tags := tagsOf m.doc, isDep := true, depMsg := d } m) := by
         cases m <;> simp_all [memberOf, memberUnder, CUMember.dep, CUMember.doc, depMsgOf, docOf]
       rw [← hfd]
       exact h3
